@@ -14,7 +14,7 @@ PROPERTY = "C31"
 FUNCTIONS = ["wannierberri.system.system_kp.SystemKP.__init__ (k_to_1BZ, k_ham_from_red, derHam/der2Ham/der3Ham)", "wannierberri.system.__finite_differences.find_shells/check_B1/Derivative3D.__call__",
              "wannierberri.data_K.data_K_k.Data_K_k.HH_K/Xbar", "wannierberri.data_K.data_K.Data_K._rotate"]
 BOUNDS = dict(quick=dict(num_wann="1..2", Hamiltonian="polynomial of total degree <= 3 in k (all monomials) with symbolic Hermitian matrix coefficients in [-1,1]",
-                         lattices="kmax=2 (cubic), tetragonal, hexagonal and one triclinic recip_lattice (triclinic: derivatives up to second order)", k="symbolic reduced k in [-0.49,0.49]^3; kp-face cases: one component anywhere in [-1/2,1/2) (first derivative)", conventions="cartesian and reduced k-vector",
+                         lattices="kmax=2 (cubic), tetragonal, hexagonal and one triclinic recip_lattice (triclinic: derivatives up to second order)", k="symbolic reduced k in [-0.49,0.49]^3; kp-face cases: one component anywhere in [-1/2,1/2), all three derivatives, analytic derHam / der2Ham supplied or not", conventions="cartesian and reduced k-vector",
                          finite_diff_dk="1e-4 (default), 1e-3", tolerance="1e-8 absolute (coefficients and k bounded as stated)"),
               thorough=dict(num_wann="1..3", Hamiltonian="as quick", lattices="as quick, triclinic up to third order", k="as quick (|k_i| <= 0.45 for dk=1e-2), 2 k-points through Data_K_k", conventions="both",
                             finite_diff_dk="1e-4, 1e-3, 1e-2", tolerance="1e-8"))
@@ -23,7 +23,7 @@ EXPLANATION = ("SystemKP is given only a Hamiltonian that is a polynomial in k w
                "analytic cartesian derivatives - exactly the analytic ones for every derivative the stencil differentiates a polynomial of degree <= 2, plus the explicit O(dk^2) stencil term "
                "(1/6) sum_b w_b b_a (b.grad)^3 H for the first derivative of a cubic - and (exact identity) that all three are Hermitian; the same through Data_K_k.Xbar.")
 ASSUMPTIONS = ["interior cases: reduced k in [-0.49,0.49]^3 (keeps the number of folding branches at one); the kp-face cases drop this for one component (whole box [-1/2,1/2), "
-               "first derivative) so that the layers next to the faces of the box are covered", "coefficient matrices Hermitian, entries in [-1,1]"]
+               "derivatives 1..3) so that the layers next to the faces of the box are covered", "coefficient matrices Hermitian, entries in [-1,1]"]
 OUTSIDE = ["third clause: calculator-level agreement between numerical and analytic derivatives (needs eigen-decomposition; an accuracy statement) - not applicable to the technique",
            "non-polynomial (merely smooth) Hamiltonians: only the Taylor terms up to order 3 are covered", "IEEE rounding of the stencil sums (cancellation error ~ eps/dk per derivative order)",
            "lattices other than the listed ones"]
@@ -46,8 +46,8 @@ def arrays_for(spec):
     A = {"C" + "".join(map(str, m)): herm("C" + "".join(map(str, m)), nb, (), -1, 1) for m in monomials(spec["deg"])}
     kb = KB if spec["dk"] <= 1e-3 else 0.45          # interior cases: stay clear of the faces by more than the reach 3*dk*max|b| of the nested stencils
     A["k"] = symvec("k", (spec["nk"], 3), lo=-kb, hi=kb)
-    if spec.get("face"):            # first component anywhere in the box [-1/2, 1/2), including the layers next to its faces
-        A["k"][0, 0] = SymC.var("kface", -0.5, 0.5 - 2.0 ** -30)
+    if spec.get("face"):            # one component anywhere in the box [-1/2, 1/2), including the layers next to its faces
+        A["k"][0, spec.get("face_axis", 0)] = SymC.var("kface", -0.5, 0.5 - 2.0 ** -30)
     return A
 
 
@@ -88,10 +88,13 @@ def obligations(rec, spec, A, xp):
     C = {m: A["C" + "".join(map(str, m))] for m in monomials(deg)}
     Ham = lambda k: poly_eval(C, k)
     lat = LATT[spec["lattice"]]
-    system = SKP.SystemKP(Ham, k_vector_cartesian=cart, finite_diff_dk=spec["dk"], **lat)
+    G0 = np.eye(3) * 2 * lat["kmax"] if lat["kmax"] is not None else lat["recip_lattice"]
+    J = np.eye(3) if cart else np.linalg.inv(G0)    # d k_ham_i / d k_cart_a
+    sup = spec.get("supplied", 0)                   # the user supplies the analytic derivatives up to this order, the rest is numerical
+    user = {name: (lambda kh, o=o: analytic(C, kh, J, o, nb)) for o, name in ((1, "derHam"), (2, "der2Ham")) if o <= sup}
+    system = SKP.SystemKP(Ham, k_vector_cartesian=cart, finite_diff_dk=spec["dk"], **user, **lat)
     G = np.asarray(system.recip_lattice, dtype=float)
     Ginv = np.linalg.inv(G)
-    J = np.eye(3) if cart else Ginv                 # d k_ham_i / d k_cart_a
     # --- concrete facts about the stencil (all doubles) --------------------------------------------------
     wk, bred, bcart = np.asarray(system.wk, dtype=float), np.asarray(system.bk_red, dtype=float), np.asarray(system.bk_cart, dtype=float)
     bq = bcart if cart else bred                    # shift of the Hamiltonian's own argument
@@ -112,11 +115,11 @@ def obligations(rec, spec, A, xp):
             got = ders[order](kred)
             X.setdefault(order, []).append(got)
             want = analytic(C, q, J, order, nb)
-            if order == 1 and deg >= 3:
+            if order == 1 and deg >= 3 and sup == 0:
                 d3 = analytic(C, q, np.eye(3), 3, nb)              # plain d^3/dq_i dq_j dq_l
                 want = want + np.einsum("aijl,mnijl->mna", T4, d3)
             rec.concrete(f"shape of der{order}Ham", np.shape(got) == (nb, nb) + (3,) * order, key="derHam shape")
-            rec.close(f"der{order}Ham(k) == analytic" + (" + (1/6) sum_b w_b b_a (b.grad)^3 H  [O(dk^2)]" if order == 1 and deg >= 3 else ""), got, want, tol, bound=1.0,
+            rec.close(f"der{order}Ham(k) == analytic" + (" + (1/6) sum_b w_b b_a (b.grad)^3 H  [O(dk^2)]" if order == 1 and deg >= 3 and sup == 0 else ""), got, want, tol, bound=1.0,
                       key=f"der{order}Ham differs from the analytic derivative" + (" for k anywhere in the box (layer next to a face included)" if spec.get("face") else ""))
             rec.eq(f"der{order}Ham(k) Hermitian", got, xp.conj(np.swapaxes(got, 0, 1)), key=f"der{order}Ham not Hermitian")
             if order > 1:
@@ -163,9 +166,13 @@ def cases(tier, seed):
                         combos.append((lattice, cart, deg, nb, 1e-4))
         combos += [("cubic", True, 3, 1, 1e-3), ("hex", False, 2, 1, 1e-3), ("cubic", True, 3, 1, 1e-2), ("tric", True, 3, 1, 1e-3)]
     out = []
-    for lattice, cart, deg in (("cubic", True, 3), ("hex", False, 2)) if q else (("cubic", True, 3), ("hex", False, 2), ("tetra", True, 2)):
-        spec = dict(lattice=lattice, cartesian=cart, deg=deg, nb=1, dk=1e-4, nk=1, dkorders=1, orders=1, face=True)
-        out.append(Case(f"kp-face {lattice} {'cartesian' if cart else 'reduced'} deg={deg} nb=1: k_0 anywhere in [-1/2,1/2), first derivative", case_run, dict(spec=spec), timeout=1500))
+    faces = [("cubic", True, 3, 0, 0, 1e-4), ("hex", False, 2, 0, 1, 1e-4), ("cubic", True, 3, 1, 0, 1e-3), ("tetra", True, 3, 2, 2, 1e-4)]
+    if not q:
+        faces += [("tetra", False, 3, 0, 2, 1e-3), ("hex", True, 3, 1, 0, 1e-4), ("cubic", False, 3, 0, 1, 1e-2), ("tric", True, 2, 1, 2, 1e-4)]
+    for lattice, cart, deg, sup, axis, dk in faces:
+        spec = dict(lattice=lattice, cartesian=cart, deg=deg, nb=1, dk=dk, nk=1, dkorders=3, orders=3, face=True, face_axis=axis, supplied=sup)
+        out.append(Case(f"kp-face {lattice} {'cartesian' if cart else 'reduced'} deg={deg} nb=1 dk={dk} analytic derivatives supplied up to order {sup}: k_{axis} anywhere in [-1/2,1/2), "
+                        "derivatives 1..3", case_run, dict(spec=spec), timeout=1500))
     for lattice, cart, deg, nb, dk in combos:
         spec = dict(lattice=lattice, cartesian=cart, deg=deg, nb=nb, dk=dk, nk=1 if (q or nb > 1) else 2, dkorders=2 if nb > 1 else 3, orders=2 if (lattice == "tric" and (q or nb > 1)) else 3)
         out.append(Case(f"kp {lattice} {'cartesian' if cart else 'reduced'} deg={deg} nb={nb} dk={dk}", case_run, dict(spec=spec), timeout=3000))
